@@ -315,8 +315,13 @@ func generate(r *rng.R, thorough bool, index int) *history {
 				o.St, o.D = "exec", d
 			case has && y < 85:
 				o.St = "idle"
-			case y < 92:
+			case y < 89:
 				o.St, o.D = "exec", uint64(r.Intn(6)) // possibly wrong digest
+			case y < 92:
+				// a (possibly stale) completion report for a digest that need not be the assigned one
+				o.St, o.D, o.RTag = "done", uint64(r.Intn(6)), respTag
+				respTag++
+				o.RCode, o.RExit = 0, 0
 			case y < 97 || !has:
 				o.St = "idle"
 			default:
